@@ -2,13 +2,21 @@
   C07 — TCP connect/accept pairing, refusal and endpoint views are consistent.
 
   Property theorems only. Mechanism model: SimVerif/Tcp.lean (`tcpConnect`, `internalConnect`,
-  `accIncoming`, `accCheckQueue`, `tcpAttach`, `accAsyncAccept`, `accClose`, `tcpIncoming`),
-  unchanged. Open system (one acceptor, any number of other sockets, the network as an
-  adversary that delivers SYNs / SYN-ACKs in any order, at any later time or never, through
-  any NAT hops): SimVerif/AcceptSys.lean; its invariant: SimVerif/Lemmas/AcceptInv.lean,
-  AcceptStep.lean. All system theorems quantify over every history `ls` admitted by `HS.ok`
-  from the initial state `HS.init cfg a anode aep clients` (any configuration, any clients,
-  any listening endpoint `aep` other than the default-constructed one).
+  `accIncoming`, `accCheckQueue`, `tcpAttach`, `accAsyncAccept`, `accClose`, `tcpOpen`, `tcpBind`,
+  `accListen`, `accCancel`, `tcpCancel`, `tcpClose`, `tcpIncoming`), unchanged. Open system: ANY
+  number of acceptors and of other sockets; acceptors are opened, bound (to any endpoint),
+  made to listen, closed and RE-OPENED (on the same or another endpoint) in any order — each
+  open..close period is a LISTENING EPOCH, identified by the forwarder id that `open`
+  allocates; connectors and accepted sockets may be cancelled / closed by the user at any
+  time; the network is an adversary that delivers SYNs / SYN-ACKs in any order, at any later
+  time or never, through any NAT hops: SimVerif/AcceptSys.lean; its invariant:
+  SimVerif/Lemmas/AcceptInv.lean, AcceptStep.lean. All system theorems quantify over every
+  history `ls` admitted by `HS.ok` from the initial state `HS.init cfg accs clients` (any
+  configuration, any acceptor objects, any socket objects, all freshly constructed).
+
+  Not in the pinned/as-is form: `accClose` has no `TParams` switch for the unrepaired
+  `acceptor::close` (which left `m_incoming_conns` alone), so only the repaired behaviour is
+  proved (`C07_close_resets_queue`, third part of `C07_pairing_fifo`, `C07_reopen_fresh_epoch`).
 -/
 import SimVerif.Lemmas.AcceptStep
 
@@ -80,244 +88,421 @@ theorem C07_refused (n : NetSt) (now : Int) (name : String) (target : Ep) (h : N
 /-! ### the open system -/
 
 section system
-variable (cfg : NetCfg) (a anode : String) (aep : Ep) (clients : List (String × String)) (tp : TParams)
+variable (cfg : NetCfg) (accs clients : List (String × String)) (tp : TParams)
 
-/-- **Invariant of every reachable state** (all 33 clauses of `HInv` + work conservation). -/
-theorem C07_invariant (hae : aep ≠ {}) (ls : List HLbl)
-    (hok : HS.okRun a tp (HS.init cfg a anode aep clients) ls) :
-    HFull a aep (HS.run a tp (HS.init cfg a anode aep clients) ls) :=
-  HFull.run hae tp ls _ (HFull.init cfg a anode aep clients hae) hok
+/-- **Invariant of every reachable state** (all clauses of `HInv` + work conservation). -/
+theorem C07_invariant (ls : List HLbl) (hok : HS.okRun tp (HS.init cfg accs clients) ls) :
+    HFull (HS.run tp (HS.init cfg accs clients) ls) :=
+  HFull.run tp ls _ (HFull.init cfg accs clients) hok
 
-theorem accLog_cids {s : HS} (h : HInv a aep s) :
-    s.accLog.map (·.cid) = (s.accLog.filterMap (·.cid)).map some := by
-  have : ∀ l : List AccDone, (∀ e ∈ l, ∃ c, e.cid = some c) → l.map (·.cid) = (l.filterMap (·.cid)).map some := by
-    intro l
-    induction l with
-    | nil => intro _; rfl
-    | cons e es ih =>
-      intro hl
-      obtain ⟨c, hc⟩ := hl e List.mem_cons_self
-      rw [List.map_cons, List.filterMap_cons, hc]
-      simp only [List.map_cons]
-      rw [ih (fun e' he' => hl e' (List.mem_cons_of_mem _ he'))]
-  apply this
+theorem map_cid_eq (l : List AccDone) (hl : ∀ e ∈ l, ∃ c, e.cid = some c) :
+    l.map (·.cid) = (l.filterMap (·.cid)).map some := by
+  induction l with
+  | nil => rfl
+  | cons e es ih =>
+    obtain ⟨c, hc⟩ := hl e List.mem_cons_self
+    rw [List.map_cons, List.filterMap_cons, hc]
+    simp only [List.map_cons]
+    rw [ih (fun e' he' => hl e' (List.mem_cons_of_mem _ he'))]
+
+theorem accLog_some {s : HS} (h : HInv s) : ∀ e ∈ s.accLog, ∃ c, e.cid = some c := by
   intro e he
-  obtain ⟨_, c, _, _, q2, _⟩ := h.a_log e he
+  obtain ⟨_, c, _, _, _, q2, _⟩ := h.a_log e he
   exact ⟨c, q2⟩
 
-/-- **`C07_pairing_fifo`.** The i-th SYN to ARRIVE at the acceptor is matched with the i-th
-    accept to COMPLETE — for all three overloads and any interleaving of arrivals and accept
-    calls. While the acceptor is open nothing is skipped: the arrivals are exactly the accepted
-    channels followed by the queue, and no SYN waits while an accept is outstanding. -/
-theorem C07_pairing_fifo (hae : aep ≠ {}) (ls : List HLbl)
-    (hok : HS.okRun a tp (HS.init cfg a anode aep clients) ls) :
-    let s := HS.run a tp (HS.init cfg a anode aep clients) ls
-    s.accLog.map (·.cid) = (s.synLog.take s.accLog.length).map some
-    ∧ (∀ sa ac, s.net.tcp? a = some sa → sa.acc = some ac → sa.isOpen = true →
-         s.synLog = s.accLog.filterMap (·.cid) ++ ac.conns ∧ (ac.acceptOp.isSome → ac.conns = [])) := by
+/-- **`C07_pairing_fifo`.** In EVERY listening epoch `f` (of any acceptor) the i-th SYN to
+    ARRIVE in that epoch is matched with the i-th accept to COMPLETE in that epoch — for all
+    three overloads and any interleaving of arrivals and accept calls. While the epoch is open
+    (the acceptor holds forwarder `f`) nothing is skipped: the arrivals are exactly the accepted
+    channels followed by the queue, and no SYN waits while an accept is outstanding. And an
+    accept completing in epoch `f` of acceptor `e.acc` hands out only a connection that was
+    DIALLED TO that acceptor IN that epoch (at the endpoint it is listening on) and whose SYN
+    ARRIVED in that epoch: connections queued before a `close` are never handed out by a later
+    epoch (`accClose` resets the queue — `C07_close_resets_queue` — and the epoch's forwarder is
+    never attached again). -/
+theorem C07_pairing_fifo (ls : List HLbl) (hok : HS.okRun tp (HS.init cfg accs clients) ls) :
+    let s := HS.run tp (HS.init cfg accs clients) ls
+    (∀ f, (s.accAt f).map (·.cid) = ((s.synAt f).take (s.accAt f).length).map some)
+    ∧ (∀ a sa ac f, s.net.tcp? a = some sa → sa.acc = some ac → sa.fwd = some f →
+         s.synAt f = (s.accAt f).filterMap (·.cid) ++ ac.conns ∧ (ac.acceptOp.isSome → ac.conns = []))
+    ∧ (∀ e ∈ s.accLog, ∃ c d, e.cid = some c ∧ s.dialLog[c]? = some d
+         ∧ d.epoch = e.epoch ∧ d.lsock = e.acc ∧ d.target = e.lep ∧ (e.epoch, c) ∈ s.synLog) := by
   intro s
-  have h := C07_invariant cfg a anode aep clients tp hae ls hok
-  obtain ⟨va, ac, hva, hac, _⟩ := h.inv.a_ex
-  obtain ⟨dropped, hf, hdr⟩ := h.inv.fifo va ac hva hac
-  have hc := accLog_cids a aep h.inv
-  have hlen : (s.accLog.filterMap (·.cid)).length = s.accLog.length := by
-    have := congrArg List.length hc; simp at this; exact this.symm
-  refine ⟨?_, ?_⟩
-  · rw [hc, hf, List.append_assoc, ← hlen, List.take_left']
+  have h := C07_invariant cfg accs clients tp ls hok
+  refine ⟨?_, ?_, ?_⟩
+  · intro f
+    obtain ⟨dropped, hf⟩ := h.inv.fifo_all f
+    have hc := map_cid_eq (accAtL s.accLog f) (fun e he => accLog_some h.inv e (mem_accAtL.mp he).1)
+    have hlen : ((accAtL s.accLog f).filterMap (·.cid)).length = (accAtL s.accLog f).length := by
+      have := congrArg List.length hc; simp at this; exact this.symm
+    show (accAtL s.accLog f).map (·.cid) = ((synAtL s.synLog f).take (accAtL s.accLog f).length).map some
+    rw [hc, hf, ← hlen, List.take_left']
     rfl
-  · intro sa ac' hsa hac' hop
-    have hva' : s.net.sv a = some sa.hview := by simp [NetSt.sv, hsa]
-    rw [hva] at hva'; cases hva'
-    have : ac' = ac := by
-      have h1 : sa.hview.acc = some ac' := hac'
-      rw [hac] at h1; exact (Option.some.inj h1).symm
-    subst this
-    have := hdr hop; subst this
-    exact ⟨by simpa using hf, fun hpe => h.work _ ac' hva hac hop hpe⟩
+  · intro a sa ac f hsa hac hvf
+    have hva : s.net.sv a = some sa.hview := by simp [NetSt.sv, hsa]
+    have hfifo := h.inv.fifo a sa.hview ac f hva hac hvf
+    refine ⟨hfifo, fun hpe => ?_⟩
+    have hopen : sa.hview.isOpen = true := by
+      cases ho : sa.hview.isOpen with
+      | true => rfl
+      | false =>
+        have := (h.inv.a_closed a sa.hview ac hva hac ho).2
+        have hvf' : sa.hview.fwd = some f := hvf
+        rw [hvf'] at this; cases this
+    exact h.work a sa.hview ac hva hac hopen hpe
+  · intro e he
+    obtain ⟨_, c, _, d, _, q2, _, _, _, _, _, _, q9, q10, q11, q12, _⟩ := h.inv.a_log e he
+    exact ⟨c, d, q2, q9, q10, q11, q12, h.inv.acc_syn e he c q2⟩
 
-/-- **`C07_one_to_one`.** No channel is handed to two accepts; no `accept` call completes
-    twice (completions carry strictly increasing call numbers, all of calls actually made). -/
-theorem C07_one_to_one (hae : aep ≠ {}) (ls : List HLbl)
-    (hok : HS.okRun a tp (HS.init cfg a anode aep clients) ls) :
-    let s := HS.run a tp (HS.init cfg a anode aep clients) ls
+/-- **`C07_one_to_one`.** No channel is handed to two accepts — over all acceptors and all
+    epochs —; no `accept` call completes twice (per acceptor, completions carry strictly
+    increasing call numbers, all of calls actually made on that acceptor); no SYN arrives twice. -/
+theorem C07_one_to_one (ls : List HLbl) (hok : HS.okRun tp (HS.init cfg accs clients) ls) :
+    let s := HS.run tp (HS.init cfg accs clients) ls
     (s.accLog.filterMap (·.cid)).Nodup
-    ∧ s.accLog.Pairwise (fun e e' => e.serial < e'.serial)
-    ∧ (∀ e ∈ s.accLog, e.serial < s.accCalls)
-    ∧ s.synLog.Nodup := by
+    ∧ (s.accLog.map (·.cid)).Nodup
+    ∧ s.accLog.Pairwise (fun e e' => e.acc = e'.acc → e.serial < e'.serial)
+    ∧ (∀ e ∈ s.accLog, e.serial < s.accCalls e.acc)
+    ∧ (s.synLog.map (·.2)).Nodup := by
   intro s
-  have h := C07_invariant cfg a anode aep clients tp hae ls hok
-  obtain ⟨va, ac, hva, hac, _⟩ := h.inv.a_ex
-  obtain ⟨dropped, hf, _⟩ := h.inv.fifo va ac hva hac
-  have hnd := h.inv.syn_nd
-  rw [hf, List.append_assoc] at hnd
-  exact ⟨(List.nodup_append.mp hnd).1, h.inv.ser_mono, h.inv.ser_lt, h.inv.syn_nd⟩
+  have h := C07_invariant cfg accs clients tp ls hok
+  refine ⟨?_, h.inv.acc_nd, h.inv.ser_mono, h.inv.ser_lt, h.inv.syn_nd⟩
+  have hc := map_cid_eq s.accLog (accLog_some h.inv)
+  have := h.inv.acc_nd
+  rw [hc] at this
+  exact (List.pairwise_map.mp this).imp (fun hne heq => hne (congrArg some heq))
 
-/-- **Every successful connect is matched with exactly one accept.** A connect completion on
-    socket `k.sock` is for the channel that very socket dialled, the endpoint dialled was the
-    acceptor's, and exactly one accept completion carries that channel. -/
-theorem C07_connect_matched (hae : aep ≠ {}) (ls : List HLbl)
-    (hok : HS.okRun a tp (HS.init cfg a anode aep clients) ls) :
-    let s := HS.run a tp (HS.init cfg a anode aep clients) ls
-    ∀ k ∈ s.conLog, ∃ c d, k.cid = some c ∧ s.dialLog[c]? = some d ∧ d.cid = c ∧ d.sock = k.sock ∧ d.target = aep
-      ∧ (∃ e ∈ s.accLog, e.cid = some c)
-      ∧ (s.accLog.filter (fun e => e.cid == some c)).length = 1 := by
+theorem filter_one_of_nodup {α β : Type} [BEq β] [LawfulBEq β] (g : α → β) (l : List α) (hnd : (l.map g).Nodup)
+    (x : α) (hx : x ∈ l) : (l.filter (fun y => g y == g x)).length = 1 := by
+  induction l with
+  | nil => cases hx
+  | cons y ys ih =>
+    rw [List.map_cons, List.nodup_cons] at hnd
+    by_cases hy : g y = g x
+    · have hb : (g y == g x) = true := by simp [hy]
+      rw [List.filter_cons_of_pos (p := fun y => g y == g x) hb]
+      have : ys.filter (fun y => g y == g x) = [] := by
+        rw [List.filter_eq_nil_iff]
+        intro z hz hzc
+        have : g z = g y := by rw [hy]; simpa using hzc
+        exact hnd.1 (List.mem_map.mpr ⟨z, hz, this⟩)
+      rw [this]; rfl
+    · have hb : ¬ ((g y == g x) = true) := by simpa using hy
+      rw [List.filter_cons_of_neg (p := fun y => g y == g x) hb]
+      apply ih hnd.2
+      rcases List.mem_cons.mp hx with he | he
+      · subst he; exact absurd rfl hy
+      · exact he
+
+/-- **Every successful connect is matched with exactly one accept; every connect completes at
+    most once.** A connect completion `k` — with success (its SYN-ACK arrived) or with
+    operation_aborted (the user's `cancel` / `close`) — is for the channel that very socket
+    dialled, and it is the ONLY completion logged for that channel: a cancelled / closed connect
+    never also succeeds, a successful one is never also aborted. A SUCCESSFUL one was accepted by
+    exactly one accept completion, by the acceptor that was dialled, in the epoch that was dialled,
+    at the endpoint that was dialled. (An aborted connect may still have been — or later be —
+    matched with an accept: its SYN is queued at the acceptor; see the example below.) -/
+theorem C07_connect_matched (ls : List HLbl) (hok : HS.okRun tp (HS.init cfg accs clients) ls) :
+    let s := HS.run tp (HS.init cfg accs clients) ls
+    ∀ k ∈ s.conLog, ∃ c d, k.cid = some c ∧ s.dialLog[c]? = some d ∧ d.cid = c ∧ d.sock = k.sock
+      ∧ (s.conLog.filter (fun k' => k'.cid == some c)).length = 1
+      ∧ (k.ec = .ok →
+          (∃ e ∈ s.accLog, e.cid = some c ∧ e.acc = d.lsock ∧ e.epoch = d.epoch ∧ e.lep = d.target)
+          ∧ (s.accLog.filter (fun e => e.cid == some c)).length = 1) := by
   intro s k hk
-  have h := C07_invariant cfg a anode aep clients tp hae ls hok
-  obtain ⟨c, d, q1, q2, q3, e, he, q4⟩ := h.inv.con_ok k hk
-  have hlt : c < s.net.chans.length := h.inv.acc_cid_lt e he c q4
+  have h := C07_invariant cfg accs clients tp ls hok
+  obtain ⟨c, d, q1, q2, q3, q4⟩ := h.inv.con_ok k hk
+  have hlt : c < s.net.chans.length := by
+    rw [← h.inv.dial_len]; exact (List.getElem?_eq_some_iff.mp q2).1
   obtain ⟨cv, hcv⟩ := cv_of_lt hlt
-  obtain ⟨r1, r2, _⟩ := h.inv.chan_ok c cv d hcv q2
-  refine ⟨c, d, q1, q2, r1, q3, r2, ⟨e, he, q4⟩, ?_⟩
-  -- exactly one: the accepted channels are pairwise distinct
-  have hnd := (C07_one_to_one cfg a anode aep clients tp hae ls hok).1
-  have key : ∀ l : List AccDone, (l.filterMap (·.cid)).Nodup → (∃ e ∈ l, e.cid = some c) →
-      (l.filter (fun e => e.cid == some c)).length = 1 := by
-    intro l
-    induction l with
-    | nil => intro _ ⟨e, he, _⟩; cases he
-    | cons x xs ih =>
-      intro hnd ⟨e, he, hec⟩
-      rw [List.filterMap_cons] at hnd
-      by_cases hx : x.cid = some c
-      · have hb : (x.cid == some c) = true := by simp [hx]
-        rw [List.filter_cons_of_pos (p := fun e : AccDone => e.cid == some c) hb]
-        rw [hx] at hnd
-        simp only [List.nodup_cons] at hnd
-        have : xs.filter (fun e => e.cid == some c) = [] := by
-          rw [List.filter_eq_nil_iff]
-          intro y hy hyc
-          exact hnd.1 (List.mem_filterMap.mpr ⟨y, hy, by simpa using hyc⟩)
-        rw [this]; rfl
-      · have hb : ¬ ((x.cid == some c) = true) := by simpa using hx
-        rw [List.filter_cons_of_neg (p := fun e : AccDone => e.cid == some c) hb]
-        apply ih
-        · cases hxc : x.cid with
-          | none => rw [hxc] at hnd; exact hnd
-          | some c' => rw [hxc] at hnd; exact (List.nodup_cons.mp hnd).2
-        · rcases List.mem_cons.mp he with he | he
-          · subst he; exact absurd hec hx
-          · exact ⟨e, he, hec⟩
-  exact key _ hnd ⟨e, he, q4⟩
+  obtain ⟨r1, _⟩ := h.inv.chan_ok c cv d hcv q2
+  have h1 := filter_one_of_nodup (fun k' : ConDone => k'.cid) s.conLog h.inv.con_nd k hk
+  rw [q1] at h1
+  refine ⟨c, d, q1, q2, r1, q3, h1, ?_⟩
+  intro hke
+  obtain ⟨e, he, q5⟩ := q4 hke
+  obtain ⟨_, c', _, d', _, t2, _, _, _, _, _, _, t9, t10, t11, t12, _⟩ := h.inv.a_log e he
+  rw [q5] at t2; cases t2
+  rw [q2] at t9; cases t9
+  have h2 := filter_one_of_nodup (fun e' : AccDone => e'.cid) s.accLog h.inv.acc_nd e he
+  rw [q5] at h2
+  exact ⟨⟨e, he, q5, t11.symm, t10.symm, t12.symm⟩, h2⟩
 
 theorem cv_of_chan {n : NetSt} {c : Nat} {ch : Chan} (h : n.chans[c]? = some ch) : n.cv c = some ch.hview := by
   simp [NetSt.cv, NetSt.chan?, h]
 
-/-- **`C07_views`.** For every completed accept, with `ch` its channel and `d` the dial that
-    created it:
+/-- **`C07_views`.** For every completed accept `e` (of acceptor `e.acc`, listening on `e.lep`),
+    with `ch` its channel and `d` the dial that created it:
     * the accept completed its own handler with success and — for the overload with an endpoint
       out-parameter — reported `ch.vis0`;
-    * the connector dialled the acceptor's endpoint `aep`, and that is what it sees as its
-      remote endpoint (`remote_endpoint()` = `visible_ep[remote_idx]`);
+    * the connector dialled the endpoint that acceptor was listening on, and that is what it
+      sees as its remote endpoint (`remote_endpoint()` = `visible_ep[remote_idx]`);
     * the accepted socket is bound to the listening endpoint and sees `ch.vis0` as its remote
       endpoint — the endpoint accept reported;
     * `ch.vis0` is the connector's bound endpoint with its address replaced by the external
-      address of the LAST NAT hop its SYN crossed (none: its real address), port unchanged. -/
-theorem C07_views (hae : aep ≠ {}) (ls : List HLbl)
-    (hok : HS.okRun a tp (HS.init cfg a anode aep clients) ls) :
-    let s := HS.run a tp (HS.init cfg a anode aep clients) ls
+      address of the LAST NAT hop its SYN crossed (none: its real address), port unchanged.
+    The clauses about sockets hold while they are still on the channel (the user may have
+    cancelled or closed them since). -/
+theorem C07_views (ls : List HLbl) (hok : HS.okRun tp (HS.init cfg accs clients) ls) :
+    let s := HS.run tp (HS.init cfg accs clients) ls
     ∀ e ∈ s.accLog, ∃ op c ch d,
       e.op = some op ∧ e.cid = some c ∧ s.net.chans[c]? = some ch ∧ s.dialLog[c]? = some d ∧ d.cid = c
       ∧ e.compl.h = op.h ∧ e.compl.ec = .ok
       ∧ e.compl.extra = (if op.withEp then "ep=" ++ ch.vis0.toString else "")
-      ∧ d.target = aep ∧ ch.ep0 = d.ep0 ∧ ch.ep1 = aep ∧ ch.vis1 = d.target
+      ∧ d.target = e.lep ∧ d.lsock = e.acc ∧ ch.ep0 = d.ep0 ∧ ch.ep1 = e.lep ∧ ch.vis1 = d.target
       ∧ (∀ o sk, s.net.tcp? o = some sk → sk.chan = some c → sk.bound = ch.ep0 →
             ch.vis (ch.remoteIdx sk.bound) = d.target)
       ∧ (∀ sk, s.net.tcp? op.peer = some sk → sk.chan = some c →
-            sk.bound = aep ∧ ch.vis (ch.remoteIdx sk.bound) = ch.vis0)
+            sk.bound = e.lep ∧ ch.vis (ch.remoteIdx sk.bound) = ch.vis0)
       ∧ ch.vis0 = natView s.natLog c d.ep0 ∧ ch.vis0.port = d.ep0.port := by
   intro s e he
-  have h := C07_invariant cfg a anode aep clients tp hae ls hok
-  obtain ⟨op, c, g, q1, q2, q3, _, _, q6, q7, _, q9⟩ := h.inv.a_log e he
+  have h := C07_invariant cfg accs clients tp ls hok
+  obtain ⟨op, c, g, d, q1, q2, q3, _, _, _, q6, q7, q9, _, q11, q12, q13⟩ := h.inv.a_log e he
   have hlt : c < s.net.chans.length := h.inv.acc_cid_lt e he c q2
   have hch : s.net.chans[c]? = some s.net.chans[c] := List.getElem?_eq_getElem hlt
   have hcv := cv_of_chan hch
-  have hdl : c < s.dialLog.length := by rw [h.inv.dial_len]; exact hlt
-  have hd : s.dialLog[c]? = some s.dialLog[c] := List.getElem?_eq_getElem hdl
-  obtain ⟨r1, r2, r3, r4, r5, r6, r7, _⟩ := h.inv.chan_ok c _ _ hcv hd
-  have x1 : s.net.chans[c].vis1 = s.dialLog[c].target := by rw [r2]; exact r5
-  have x2 : s.net.chans[c].vis0 = natView s.natLog c s.dialLog[c].ep0 := by
-    have := r7; rw [r3] at this; exact this
-  have x3 : s.net.chans[c].vis0.port = s.dialLog[c].ep0.port := by rw [x2]; exact natView_port _ _ _
-  have x4 := q9 _ hcv
-  refine ⟨op, c, s.net.chans[c], s.dialLog[c], q1, q2, hch, hd, r1, q6, q7, x4, r2, r3, r4, x1, ?_, ?_, x2, x3⟩
+  obtain ⟨r1, r2, r3, r4, r5, _, r7, _⟩ := h.inv.chan_ok c _ d hcv q9
+  have x2 : s.net.chans[c].vis0 = natView s.natLog c d.ep0 := by
+    have := r7; rw [r2] at this; exact this
+  have x3 : s.net.chans[c].vis0.port = d.ep0.port := by rw [x2]; exact natView_port _ _ _
+  have x4 := q13 _ hcv
+  refine ⟨op, c, s.net.chans[c], d, q1, q2, hch, q9, r1, q6, q7, x4, q12, q11, r2, r3.trans q12, r4, ?_, ?_, x2, x3⟩
   · intro o sk _ _ hb
     have : (s.net.chans[c].ep0 == sk.bound) = true := by rw [hb]; simp
     simp only [Chan.remoteIdx, this, if_true, Chan.vis]
-    rw [r2]; exact r5
+    exact r4
   · intro sk hsk hskc
     have hv : s.net.sv op.peer = some sk.hview := by simp [NetSt.sv, hsk]
     obtain ⟨p1, _⟩ := h.inv.peer_b e he op c sk.hview q1 q2 hv hskc
-    have hb : sk.bound = aep := p1
+    have hb : sk.bound = e.lep := p1
     refine ⟨hb, ?_⟩
     have : (s.net.chans[c].ep0 == sk.bound) = false := by
-      rw [hb]; simp; exact r6
+      rw [hb, ← q12]; simp; exact r5
     simp [Chan.remoteIdx, this, Chan.vis]
 
 /-- **`C07_no_crosstalk`.** After the hand-over the route towards side 1 ends in the ACCEPTED
-    socket's forwarder `g` (never forwarder 0, the acceptor's) and the route towards side 0 in
-    the connector's forwarder `f0`; the routes are the outgoing route of the sender's address,
-    the network route of the pair, the incoming route of the receiver's address. While the
-    two sockets are attached to the channel those forwarders point at them — and at nothing else:
-    what either socket writes (`hops[remote_idx]`) is delivered to the other socket of the pair. -/
-theorem C07_no_crosstalk (hae : aep ≠ {}) (ls : List HLbl)
-    (hok : HS.okRun a tp (HS.init cfg a anode aep clients) ls) :
-    let s := HS.run a tp (HS.init cfg a anode aep clients) ls
+    socket's forwarder `g` (never the forwarder of the listening epoch, the acceptor's) and the
+    route towards side 0 in the connector's forwarder `f0`; the routes are the outgoing route of
+    the sender's address, the network route of the pair, the incoming route of the receiver's
+    address. While the two sockets are attached to the channel those forwarders point at them —
+    and at nothing else: what either socket writes (`hops[remote_idx]`) is delivered to the
+    other socket of the pair. Between acceptors: the channel was dialled to THIS acceptor
+    (`d.lsock = e.acc`), in THIS epoch, at the endpoint it listens on. -/
+theorem C07_no_crosstalk (ls : List HLbl) (hok : HS.okRun tp (HS.init cfg accs clients) ls) :
+    let s := HS.run tp (HS.init cfg accs clients) ls
     ∀ e ∈ s.accLog, ∃ op c ch d f0 g,
       e.op = some op ∧ e.cid = some c ∧ s.net.chans[c]? = some ch ∧ s.dialLog[c]? = some d
-      ∧ d.fwd = some f0 ∧ e.fwd = some g ∧ g ≠ 0 ∧ f0 ≠ 0
-      ∧ ch.hops0 = s.net.cfg.outRoute aep.addr ++ s.net.cfg.netRoute ch.ep0.addr aep.addr
+      ∧ d.lsock = e.acc ∧ d.epoch = e.epoch ∧ d.target = e.lep
+      ∧ d.fwd = some f0 ∧ e.fwd = some g ∧ g ≠ e.epoch ∧ f0 ≠ e.epoch
+      ∧ ch.hops0 = s.net.cfg.outRoute e.lep.addr ++ s.net.cfg.netRoute ch.ep0.addr e.lep.addr
                     ++ s.net.cfg.inRoute ch.ep0.addr ++ [fwdHop f0]
-      ∧ ch.hops1 = s.net.cfg.outRoute ch.ep0.addr ++ s.net.cfg.netRoute ch.ep0.addr aep.addr
-                    ++ s.net.cfg.inRoute aep.addr ++ [fwdHop g]
+      ∧ ch.hops1 = s.net.cfg.outRoute ch.ep0.addr ++ s.net.cfg.netRoute ch.ep0.addr e.lep.addr
+                    ++ s.net.cfg.inRoute e.lep.addr ++ [fwdHop g]
       ∧ (∀ sk, s.net.tcp? op.peer = some sk → sk.chan = some c →
             sk.fwd = some g ∧ s.net.fwdTarget g = some op.peer ∧ ch.hops (ch.remoteIdx sk.bound) = ch.hops0)
       ∧ (∀ o sk, s.net.tcp? o = some sk → sk.chan = some c → sk.bound = ch.ep0 →
             sk.fwd = some f0 ∧ s.net.fwdTarget f0 = some o ∧ ch.hops (ch.remoteIdx sk.bound) = ch.hops1) := by
   intro s e he
-  have h := C07_invariant cfg a anode aep clients tp hae ls hok
-  obtain ⟨op, c, g, q1, q2, q3, q4, q5, _, _, q8, _⟩ := h.inv.a_log e he
+  have h := C07_invariant cfg accs clients tp ls hok
+  obtain ⟨op, c, g, d, q1, q2, q3, q4, _, _, _, _, q9, q10, q11, q12, _⟩ := h.inv.a_log e he
   have hlt : c < s.net.chans.length := h.inv.acc_cid_lt e he c q2
   have hch : s.net.chans[c]? = some s.net.chans[c] := List.getElem?_eq_getElem hlt
   have hcv := cv_of_chan hch
-  have hdl : c < s.dialLog.length := by rw [h.inv.dial_len]; exact hlt
-  have hd : s.dialLog[c]? = some s.dialLog[c] := List.getElem?_eq_getElem hdl
-  obtain ⟨_, _, r3, _, _, r6, _, f0, s1, s2, s3, s4⟩ := h.inv.chan_ok c _ _ hcv hd
+  obtain ⟨_, _, r3, _, r5, _, _, _, f0, s1, _, s3, s4⟩ := h.inv.chan_ok c _ d hcv q9
+  have r3' : s.net.chans[c].hview.ep1 = e.lep := r3.trans q12
   obtain ⟨g', t1, t2⟩ := h.inv.hops1_a c _ e hcv he q2
   rw [q3] at t1; cases t1
-  have hpeer : ∀ sk, s.net.tcp? op.peer = some sk → sk.chan = some c → sk.bound = aep ∧ sk.fwd = some g := by
+  have hpeer : ∀ sk, s.net.tcp? op.peer = some sk → sk.chan = some c → sk.bound = e.lep ∧ sk.fwd = some g := by
     intro sk hsk hskc
     have hv : s.net.sv op.peer = some sk.hview := by simp [NetSt.sv, hsk]
     obtain ⟨p1, p2⟩ := h.inv.peer_b e he op c sk.hview q1 q2 hv hskc
     exact ⟨p1, by rw [← q3]; exact p2⟩
-  refine ⟨op, c, s.net.chans[c], s.dialLog[c], f0, g, q1, q2, hch, hd, s1, q3, q4, s3, ?_, ?_, ?_, ?_⟩
-  · have := s4; simp only [route0] at this; exact this
-  · have := t2; simp only [route1] at this; exact this
+  refine ⟨op, c, s.net.chans[c], d, f0, g, q1, q2, hch, q9, q11, q10, q12, s1, q3, q4, by rw [← q10]; exact s3,
+    ?_, ?_, ?_, ?_⟩
+  · have := s4; simp only [route0, r3'] at this; exact this
+  · have := t2; simp only [route1, r3'] at this; exact this
   · intro sk hsk hskc
     obtain ⟨hb, hf⟩ := hpeer sk hsk hskc
     have hv : s.net.sv op.peer = some sk.hview := by simp [NetSt.sv, hsk]
     refine ⟨hf, (h.inv.s_fwd op.peer sk.hview g hv hf).2, ?_⟩
-    have : (s.net.chans[c].ep0 == sk.bound) = false := by rw [hb]; simp; exact r6
+    have : (s.net.chans[c].ep0 == sk.bound) = false := by rw [hb, ← q12]; simp; exact r5
     simp [Chan.remoteIdx, this, Chan.hops]
   · intro o sk hsk hskc hb
     have hv : s.net.sv o = some sk.hview := by simp [NetSt.sv, hsk]
-    have hoa : o ≠ a := by
-      intro hoa; subst hoa
-      obtain ⟨va, _, w1, _, w3⟩ := h.inv.a_ex
-      rw [hv] at w1; cases w1
-      have : sk.chan = none := w3
-      rw [this] at hskc; cases hskc
-    obtain ⟨cv', d', p1, p2, p3⟩ := h.inv.conn o sk.hview c hoa hv hskc
+    obtain ⟨cv', d', p1, p2, p3⟩ := h.inv.conn o sk.hview c hv hskc
     rw [hcv] at p1; cases p1
-    rw [hd] at p2; cases p2
+    rw [q9] at p2; cases p2
     have hf : sk.fwd = some f0 := by
       rcases p3 with ⟨_, _, p6⟩ | ⟨p4, _⟩
       · rw [← s1]; exact p6
-      · exact absurd (hb.symm.trans p4) r6
+      · exact absurd (hb.symm.trans p4) r5
     refine ⟨hf, (h.inv.s_fwd o sk.hview f0 hv hf).2, ?_⟩
     have : (s.net.chans[c].ep0 == sk.bound) = true := by rw [hb]; simp
     simp [Chan.remoteIdx, this, Chan.hops]
 
+/-- **`C07_syn_routing`** (no cross-talk between acceptors and between epochs, before the
+    hand-over). A SYN in flight can only ever be handed — by a network that respects routes —
+    to the acceptor it was dialled to, while that acceptor is still in the listening epoch that
+    was dialled and bound to the endpoint that was dialled: never to another acceptor (on
+    another endpoint of the same node or elsewhere), never to the same acceptor after a close
+    and re-open. And every arrival logged for epoch `f` is of a channel dialled to epoch `f`. -/
+theorem C07_syn_routing (ls : List HLbl) (hok : HS.okRun tp (HS.init cfg accs clients) ls) :
+    let s := HS.run tp (HS.init cfg accs clients) ls
+    (∀ pk ∈ s.bag, pk.ty = .syn → ∀ a, s.net.routedTo pk a →
+        ∃ c d sa, pk.chan = some c ∧ s.dialLog[c]? = some d ∧ a = d.lsock ∧ s.net.tcp? a = some sa
+          ∧ sa.acc.isSome ∧ sa.bound = d.target ∧ sa.fwd = some d.epoch ∧ (∀ x ∈ s.synLog, x.2 ≠ c))
+    ∧ (∀ x ∈ s.synLog, ∃ d, s.dialLog[x.2]? = some d ∧ d.epoch = x.1) := by
+  intro s
+  have h := C07_invariant cfg accs clients tp ls hok
+  refine ⟨?_, ?_⟩
+  · intro pk hpk hty a ⟨f, hlast, hft0⟩
+    obtain ⟨c, cv, q1, q2, q3, q4⟩ := h.inv.b_syn pk hpk hty
+    obtain ⟨va, hva, hvf⟩ := h.inv.f_own f a hft0
+    have hlt : c < s.dialLog.length := by rw [h.inv.dial_len]; exact cv_lt q2
+    have hd : s.dialLog[c]? = some s.dialLog[c] := List.getElem?_eq_getElem hlt
+    have hq1 := h.inv.hops1_q c cv _ q2 hd (h.inv.not_acc_of_not_syn c q3)
+    have hfe : s.dialLog[c].epoch = f := by
+      rw [q4, hq1, List.getLast?_append, List.getLast?_singleton] at hlast
+      simp at hlast; exact fwdHop_inj hlast
+    obtain ⟨r1, r2, r3⟩ := h.inv.d_acc _ (List.getElem_mem hlt) a va hva (by rw [hfe]; exact hvf)
+    obtain ⟨sa, hsa, hsav⟩ := sv_some hva
+    refine ⟨c, _, sa, q1, hd, r1, hsa, ?_, ?_, ?_, ?_⟩
+    · rw [← hsav] at r3; exact r3
+    · rw [← hsav] at r2; exact r2
+    · rw [← hsav, ← hfe] at hvf; exact hvf
+    · intro x hx hxc; exact q3 (List.mem_map.mpr ⟨x, hx, hxc⟩)
+  · intro x hx
+    have hlt : x.2 < s.dialLog.length := by rw [h.inv.dial_len]; exact (h.inv.syn_lt x hx).1
+    exact ⟨_, List.getElem?_eq_getElem hlt, h.inv.syn_ep x hx _ (List.getElem?_eq_getElem hlt)⟩
+
+/-- **`C07_reopen_fresh_epoch`.** `acceptor::open` in any reachable state — after a close, or
+    on an acceptor that is still listening with connections queued and an accept outstanding —
+    starts a NEW epoch: the acceptor is open with a forwarder `f` that no earlier epoch (of any
+    acceptor) had; nothing has arrived or been accepted in `f`; the queue is empty, no accept is
+    outstanding, it does not listen yet and is unbound. With the third part of
+    `C07_pairing_fifo`: nothing queued before is ever handed out after. -/
+theorem C07_reopen_fresh_epoch (ls : List HLbl) (hok : HS.okRun tp (HS.init cfg accs clients) ls)
+    (a : String) (v4 : Bool) :
+    let s := HS.run tp (HS.init cfg accs clients) ls
+    s.ok (.openAcc a v4) →
+    let s' := s.step tp (.openAcc a v4)
+    ∃ sa ac, s'.net.tcp? a = some sa ∧ sa.acc = some ac ∧ sa.isOpen = true ∧ sa.fwd = some s.net.fwds.length
+      ∧ sa.bound = {} ∧ ac.conns = [] ∧ ac.acceptOp = none ∧ ac.queueLimit = -1
+      ∧ s'.synAt s.net.fwds.length = [] ∧ s'.accAt s.net.fwds.length = []
+      ∧ (∀ x ∈ s'.synLog, x.1 < s.net.fwds.length) ∧ (∀ e ∈ s'.accLog, e.epoch < s.net.fwds.length) := by
+  intro s hacc s'
+  have h := C07_invariant cfg accs clients tp ls hok
+  obtain ⟨va, ac, hva, hac⟩ := isAcc_view hacc
+  obtain ⟨_, c2, _, _, c5, _⟩ := accClose_sum s.net s.now a va ac hva hac
+  have hv1 : (s.net.accClose s.now a).1.sv a
+      = some ⟨false, {}, none, none, none, some { ac with queueLimit := -1, conns := [], acceptOp := none }⟩ := by
+    rw [c5 a, if_pos rfl]
+  obtain ⟨_, _, _, _, d5, _⟩ := tcpOpen_sum (s.net.accClose s.now a).1 s.now a v4 _ hv1
+  have hv2 : s'.net.sv a = some ⟨true, {}, some s.net.fwds.length, none, none,
+      some { ac with queueLimit := -1, conns := [], acceptOp := none }⟩ := by
+    show ((s.net.accClose s.now a).1.tcpOpen s.now a v4).1.sv a = _
+    rw [d5 a, if_pos rfl, c2]
+  obtain ⟨sa, hsa, hsav⟩ := sv_some hv2
+  have hs1 : ∀ x ∈ s.synLog, x.1 < s.net.fwds.length := fun x hx => (h.inv.syn_lt x hx).2
+  have hs2 : ∀ e ∈ s.accLog, e.epoch < s.net.fwds.length := by
+    intro e he
+    obtain ⟨_, _, _, _, _, _, _, _, _, r6, _⟩ := h.inv.a_log e he
+    exact r6
+  refine ⟨sa, { ac with queueLimit := -1, conns := [], acceptOp := none }, hsa, ?_, ?_, ?_, ?_, rfl, rfl, rfl, ?_, ?_, hs1, hs2⟩
+  · exact congrArg SockV.acc hsav
+  · exact congrArg SockV.isOpen hsav
+  · exact congrArg SockV.fwd hsav
+  · exact congrArg SockV.bound hsav
+  · show synAtL s.synLog s.net.fwds.length = []
+    unfold synAtL
+    rw [List.map_eq_nil_iff, List.filter_eq_nil_iff]
+    intro x hx; have := hs1 x hx; simp; omega
+  · show accAtL s.accLog s.net.fwds.length = []
+    unfold accAtL
+    rw [List.filter_eq_nil_iff]
+    intro e he; have := hs2 e he; simp; omega
+
 end system
+
+/-! ### `acceptor::close`, user `cancel` / `close` of a connect in progress -/
+
+/-- **`C07_close_resets_queue`** (the repaired `acceptor::close`): whatever was queued and
+    whatever accept was outstanding, afterwards the acceptor is closed, unbound, unregistered,
+    its forwarder detached, the queue EMPTY, no accept outstanding, not listening; no handler
+    completes with success; everything it sends is an error (reset) packet. -/
+theorem C07_close_resets_queue (n : NetSt) (now : Int) (a : String) (sa : TcpSock) (ac : AccState)
+    (hs : n.tcp? a = some sa) (hac : sa.acc = some ac) :
+    (∃ sa', (n.accClose now a).1.tcp? a = some sa' ∧ sa'.isOpen = false ∧ sa'.bound = {} ∧ sa'.fwd = none
+        ∧ sa'.acc = some { ac with queueLimit := -1, conns := [], acceptOp := none })
+    ∧ (∀ g, sa.fwd = some g → (n.accClose now a).1.fwdTarget g = none)
+    ∧ okPosts (n.accClose now a).2 = []
+    ∧ (∀ q ∈ fwdPkts (n.accClose now a).2, q.ty = .err) := by
+  have hva : n.sv a = some sa.hview := by simp [NetSt.sv, hs]
+  obtain ⟨_, _, _, _, c5, _, c7, c8, c9⟩ := accClose_sum n now a sa.hview ac hva hac
+  have h1 := c5 a
+  rw [if_pos rfl] at h1
+  obtain ⟨sa', hsa', hv'⟩ := sv_some h1
+  refine ⟨⟨sa', hsa', congrArg SockV.isOpen hv', congrArg SockV.bound hv', congrArg SockV.fwd hv',
+    congrArg SockV.acc hv'⟩, ?_, c8, c9⟩
+  intro g hg
+  rw [c7 g, if_pos (show sa.hview.fwd = some g from hg)]
+
+/-- **`C07_cancel_aborts`.** `cancel` on a socket whose connect is in progress (before its
+    SYN-ACK arrived) completes the connect handler with operation_aborted — and with nothing
+    else: no handler completes with success, no packet is sent —; the socket stays on its
+    channel with no connect pending, so the SYN-ACK, when it arrives, completes nothing
+    (`tcpIncoming`: `m_connect_handler` is empty). -/
+theorem C07_cancel_aborts (tp : TParams) (n : NetSt) (now : Int) (o : String) (sk : TcpSock) (h : Nat)
+    (hs : n.tcp? o = some sk) (hc : sk.connectH = some h) :
+    NEff.post { h := h, ec := .aborted } ∈ (n.tcpCancel o).2
+    ∧ okPosts (n.tcpCancel o).2 = [] ∧ fwdPkts (n.tcpCancel o).2 = []
+    ∧ (∃ sk', (n.tcpCancel o).1.tcp? o = some sk' ∧ sk'.connectH = none ∧ sk'.chan = sk.chan
+         ∧ sk'.bound = sk.bound ∧ sk'.fwd = sk.fwd ∧ sk'.isOpen = sk.isOpen)
+    ∧ (∀ pk, pk.ty = .synack → (n.tcpCancel o).1.tcpIncoming tp now o pk = ((n.tcpCancel o).1, [])) := by
+  rw [tcpCancel_eq n o sk hs]
+  obtain ⟨c1, c2, c3⟩ := cancel_sum sk
+  obtain ⟨p1, _⟩ := cancel_posts_aborted sk h hc
+  have hv : (n.setTcp o sk.cancel.1).sv o = some { sk.hview with connectH := none } := by
+    rw [sv_setTcp, if_pos rfl, c1]
+  refine ⟨p1, c2, c3, ⟨sk.cancel.1, tcp?_setTcp_same _ _ _, congrArg SockV.connectH c1, congrArg SockV.chan c1,
+    congrArg SockV.bound c1, congrArg SockV.fwd c1, congrArg SockV.isOpen c1⟩, ?_⟩
+  intro pk hty
+  exact (tcpIncoming_synack tp _ now o pk _ hv hty).1 rfl
+
+/-- **`C07_close_aborts`.** `close` on a socket whose connect is in progress completes the
+    connect handler with operation_aborted, no handler with success; the socket leaves its
+    channel (closed, unbound, forwarder detached): the SYN-ACK can no longer be delivered to it
+    (`routedTo` needs an attached forwarder). No end-of-stream is announced (everything sent is
+    an error packet, and none is sent while the connect is pending: see `tcpClose`). -/
+theorem C07_close_aborts (n : NetSt) (now : Int) (o : String) (sk : TcpSock) (h : Nat)
+    (hs : n.tcp? o = some sk) (hc : sk.connectH = some h) :
+    NEff.post { h := h, ec := .aborted } ∈ (n.tcpClose now o).2
+    ∧ okPosts (n.tcpClose now o).2 = []
+    ∧ fwdPkts (n.tcpClose now o).2 = []
+    ∧ (∃ sk', (n.tcpClose now o).1.tcp? o = some sk' ∧ sk'.connectH = none ∧ sk'.chan = none
+         ∧ sk'.isOpen = false ∧ sk'.fwd = none ∧ sk'.bound = {})
+    ∧ (∀ g, sk.fwd = some g → (n.tcpClose now o).1.fwdTarget g = none) := by
+  have hv : n.sv o = some sk.hview := by simp [NetSt.sv, hs]
+  obtain ⟨_, _, _, _, c5, _, c7, c8, _⟩ := tcpClose_sum n now o sk.hview hv
+  have h1 := c5 o
+  rw [if_pos rfl] at h1
+  obtain ⟨sk', hsk', hv'⟩ := sv_some h1
+  have heof : tcpCloseEof n now o sk = (n, []) := by
+    unfold tcpCloseEof
+    cases sk.chan.bind n.chan? with
+    | none => rfl
+    | some ch => simp [hc]
+  have hmem : NEff.post { h := h, ec := .aborted } ∈ (n.tcpClose now o).2 ∧ fwdPkts (n.tcpClose now o).2 = [] := by
+    rw [tcpClose_eq]
+    simp only [hs, heof]
+    unfold tcpCloseTail
+    simp only [hs, List.nil_append]
+    obtain ⟨p1, _⟩ := cancel_posts_aborted { sk with chan := none, bound := {}, isOpen := false, fwd := none, mss := 1475, cwnd := 2950, inFlight := 0, outstanding := [], inq := [], reorder := [], resend := [], recvNull := false, nextIn := 0, nextOut := 0, lastDrop := 0 } h hc
+    exact ⟨p1, (cancel_sum _).2.2⟩
+  refine ⟨hmem.1, c8, hmem.2, ⟨sk', hsk', congrArg SockV.connectH hv', congrArg SockV.chan hv', congrArg SockV.isOpen hv',
+    congrArg SockV.fwd hv', congrArg SockV.bound hv'⟩, ?_⟩
+  intro g hg
+  rw [c7 g, if_pos (show sk.hview.fwd = some g from hg)]
 
 /-! ### data follows the channel's route (what `C07_no_crosstalk` is about) -/
 
@@ -387,56 +572,99 @@ theorem routedTo_of_routedToB {n : NetSt} {pk : Pkt} {name : String} (h : n.rout
     obtain ⟨f, _, h1, h2⟩ := h
     exact ⟨f, by rw [h1]; exact hl, h2⟩
 
-def HS.okB (a : String) (s : HS) : HLbl → Bool
-  | .connect c _ _ => c != a && ((s.net.tcp? c).map (fun sk => sk.chan.isNone)).getD false
-  | .accept (.into _ p _) => p != a && (s.net.tcp? p).isSome
-  | .accept (.fresh _ nn) => (s.net.tcp? nn).isNone
-  | .deliverSyn i => ((s.bag[i]?).map (fun pk => pk.ty == .syn && s.net.routedToB pk a)).getD false
-  | .deliverSynAck i c => c != a && ((s.bag[i]?).map (fun pk => pk.ty == .synack && s.net.routedToB pk c)).getD false
+def NetSt.isAccB (n : NetSt) (a : String) : Bool := ((n.tcp? a).map (fun sk => sk.acc.isSome)).getD false
+def NetSt.isSockB (n : NetSt) (o : String) : Bool := ((n.tcp? o).map (fun sk => sk.acc.isNone)).getD false
+
+theorem isAcc_of_isAccB {n : NetSt} {a : String} (h : n.isAccB a = true) : n.isAcc a := by
+  unfold NetSt.isAccB at h
+  cases hs : n.tcp? a with
+  | none => simp [hs] at h
+  | some sk => simp [hs] at h; exact ⟨sk, hs, h⟩
+
+theorem isSock_of_isSockB {n : NetSt} {o : String} (h : n.isSockB o = true) : n.isSock o := by
+  unfold NetSt.isSockB at h
+  cases hs : n.tcp? o with
+  | none => simp [hs] at h
+  | some sk => simp [hs] at h; exact ⟨sk, hs, h⟩
+
+def HS.okB (s : HS) : HLbl → Bool
+  | .openAcc a _ => s.net.isAccB a
+  | .bind o _ => ((s.net.tcp? o).map (fun sk => sk.chan.isNone)).getD false
+  | .openSock o _ => s.net.isSockB o
+  | .listen a _ => s.net.isAccB a
+  | .cancelAcc a => s.net.isAccB a
+  | .closeAcceptor a => s.net.isAccB a
+  | .accept a (.into _ p _) => s.net.isAccB a && s.net.isSockB p
+  | .accept a (.fresh _ nn) => s.net.isAccB a && (s.net.tcp? nn).isNone
+  | .deliverSyn i a => ((s.bag[i]?).map (fun pk => pk.ty == .syn && s.net.routedToB pk a)).getD false
+  | .deliverErr i a => s.net.isAccB a && ((s.bag[i]?).map (fun pk => pk.ty == .err && s.net.routedToB pk a)).getD false
+  | .connect c _ _ => ((s.net.tcp? c).map (fun sk => sk.acc.isNone && sk.chan.isNone)).getD false
+  | .cancel o => s.net.isSockB o
+  | .close o => s.net.isSockB o
+  | .deliverSynAck i c => ((s.bag[i]?).map (fun pk => pk.ty == .synack && s.net.routedToB pk c)).getD false
   | _ => true
 
-theorem HS.ok_of_okB {a : String} {s : HS} {l : HLbl} (h : s.okB a l = true) : s.ok a l := by
+theorem HS.ok_of_okB {s : HS} {l : HLbl} (h : s.okB l = true) : s.ok l := by
   cases l with
-  | connect c t hh =>
-    simp only [HS.okB, Bool.and_eq_true, bne_iff_ne] at h
-    cases hs : s.net.tcp? c with
+  | tick t => trivial
+  | natRewrite i e => trivial
+  | openAcc a v4 => exact isAcc_of_isAccB h
+  | openSock o v4 => exact isSock_of_isSockB h
+  | bind o ep =>
+    simp only [HS.okB] at h
+    cases hs : s.net.tcp? o with
     | none => simp [hs] at h
     | some sk =>
       simp only [hs, Option.map_some, Option.getD_some, Option.isNone_iff_eq_none] at h
-      exact ⟨h.1, sk, hs, h.2⟩
-  | accept op =>
+      exact ⟨sk, hs, h⟩
+  | listen a q => exact isAcc_of_isAccB h
+  | cancelAcc a => exact isAcc_of_isAccB h
+  | closeAcceptor a => exact isAcc_of_isAccB h
+  | cancel o => exact isSock_of_isSockB h
+  | close o => exact isSock_of_isSockB h
+  | accept a op =>
     cases op with
     | into hh p w =>
-      simp only [HS.okB, Bool.and_eq_true, bne_iff_ne] at h
-      exact ⟨h.1, h.2⟩
+      simp only [HS.okB, Bool.and_eq_true] at h
+      exact ⟨isAcc_of_isAccB h.1, isSock_of_isSockB h.2⟩
     | fresh hh nn =>
-      simp only [HS.okB, Option.isNone_iff_eq_none] at h
-      exact h
-  | deliverSyn i =>
+      simp only [HS.okB, Bool.and_eq_true, Option.isNone_iff_eq_none] at h
+      exact ⟨isAcc_of_isAccB h.1, h.2⟩
+  | connect c t hh =>
+    simp only [HS.okB] at h
+    cases hs : s.net.tcp? c with
+    | none => simp [hs] at h
+    | some sk =>
+      simp only [hs, Option.map_some, Option.getD_some, Bool.and_eq_true, Option.isNone_iff_eq_none] at h
+      exact ⟨sk, hs, h.1, h.2⟩
+  | deliverSyn i a =>
     simp only [HS.okB] at h
     cases hb : s.bag[i]? with
     | none => simp [hb] at h
     | some pk =>
       simp only [hb, Option.map_some, Option.getD_some, Bool.and_eq_true, beq_iff_eq] at h
       exact ⟨pk, hb, h.1, routedTo_of_routedToB h.2⟩
-  | deliverSynAck i c =>
-    simp only [HS.okB, Bool.and_eq_true, bne_iff_ne] at h
+  | deliverErr i a =>
+    simp only [HS.okB, Bool.and_eq_true] at h
     cases hb : s.bag[i]? with
     | none => simp [hb] at h
     | some pk =>
       simp only [hb, Option.map_some, Option.getD_some, Bool.and_eq_true, beq_iff_eq] at h
-      exact ⟨h.1, pk, hb, h.2.1, routedTo_of_routedToB h.2.2⟩
-  | tick t => trivial
-  | listen q => trivial
-  | natRewrite i e => trivial
-  | closeAcceptor => trivial
+      exact ⟨isAcc_of_isAccB h.1, pk, hb, h.2.1, routedTo_of_routedToB h.2.2⟩
+  | deliverSynAck i c =>
+    simp only [HS.okB] at h
+    cases hb : s.bag[i]? with
+    | none => simp [hb] at h
+    | some pk =>
+      simp only [hb, Option.map_some, Option.getD_some, Bool.and_eq_true, beq_iff_eq] at h
+      exact ⟨pk, hb, h.1, routedTo_of_routedToB h.2⟩
 
-def HS.okRunB (a : String) (tp : TParams) : HS → List HLbl → Bool
+def HS.okRunB (tp : TParams) : HS → List HLbl → Bool
   | _, [] => true
-  | s, l :: rest => s.okB a l && HS.okRunB a tp (s.step a tp l) rest
+  | s, l :: rest => s.okB l && HS.okRunB tp (s.step tp l) rest
 
-theorem HS.okRun_of_okRunB {a : String} {tp : TParams} : ∀ (ls : List HLbl) (s : HS),
-    HS.okRunB a tp s ls = true → HS.okRun a tp s ls
+theorem HS.okRun_of_okRunB {tp : TParams} : ∀ (ls : List HLbl) (s : HS),
+    HS.okRunB tp s ls = true → HS.okRun tp s ls
   | [], _, _ => trivial
   | l :: rest, s, h => by
     simp only [HS.okRunB, Bool.and_eq_true] at h
@@ -444,62 +672,118 @@ theorem HS.okRun_of_okRunB {a : String} {tp : TParams} : ∀ (ls : List HLbl) (s
 
 namespace HEx
 
-/-- two nodes; the clients' node sits behind a NAT-capable route (the adversary's
-    `natRewrite` label plays the NAT hop) -/
+/-- two nodes; `n0` is multi-homed; the clients' node sits behind a NAT-capable route (the
+    adversary's `natRewrite` label plays the NAT hop) -/
 def cfg : NetCfg :=
-  { nodes := [("n0", ["10.0.0.1"]), ("n1", ["10.0.1.1"])],
+  { nodes := [("n0", ["10.0.0.1", "10.0.0.2"]), ("n1", ["10.0.1.1"])],
     routeIn := [("*", ["qi"])], routeOut := [("10.0.1.1", ["nat", "qo"]), ("*", ["qo"])], routeNet := [("*", ["net"])] }
 
 def aep : Ep := { addr := "10.0.0.1", port := 8000 }
+/-- a second acceptor listens on another endpoint of the same node -/
+def bep : Ep := { addr := "10.0.0.2", port := 9000 }
 
-def clients : List (String × String) := [("s0", "n0"), ("s1", "n1"), ("s2", "n1"), ("s3", "n1")]
+def accs : List (String × String) := [("a0", "n0"), ("a1", "n0")]
+def clients : List (String × String) :=
+  [("s0", "n0"), ("s1", "n1"), ("s2", "n1"), ("s3", "n1"), ("s4", "n1"), ("s5", "n1")]
 
-def init : HS := HS.init cfg "a0" "n0" aep clients
+def init : HS := HS.init cfg accs clients
 
-/-- s1 and s2 dial; s2's SYN crosses a NAT and ARRIVES FIRST; an accept with endpoint
-    out-parameter is posted after the arrival, the socket-returning one before the second
-    arrival; s3 dials before anybody listens … and after the acceptor was closed -/
+/-- s3 dials before anybody listens; `a0` and `a1` are opened, bound, made to listen (epochs 1
+    and 2); s1 and s2 dial `a0`; s2's SYN crosses a NAT and ARRIVES FIRST; s4 dials `a1`; an accept
+    with endpoint out-parameter is posted on `a0` after the first arrival, the socket-returning
+    one before the second arrival; s2's SYN-ACK arrives; s1 CANCELS its connect — the SYN-ACK that
+    arrives afterwards completes nothing, yet its channel was accepted —; s4's SYN is queued at
+    `a1` (no accept), s4 cancels and closes (its end-of-stream reaches `a1`); `a1` is RE-OPENED
+    (epoch 8; the queued connection is reset), bound and listens again, an accept is posted: the
+    stale connection is NOT handed out; s5 — opened and bound explicitly to port 7000 — dials, is
+    accepted, and CLOSES before its SYN-ACK arrives; `a0` is closed and s3 dials again; the accepted socket s9 is closed -/
 def hist : List HLbl :=
-  [ .connect "s3" aep 3, .listen 5, .connect "s1" aep 1, .connect "s2" aep 2, .natRewrite 1 "99.0.0.9",
-    .deliverSyn 1, .accept (.into 10 "s0" true), .accept (.fresh 11 "s9"), .deliverSyn 0,
-    .deliverSynAck 0 "s2", .deliverSynAck 0 "s1", .tick 7, .closeAcceptor, .connect "s3" aep 4 ]
+  [ .connect "s3" aep 3,
+    .openAcc "a0" true, .bind "a0" aep, .listen "a0" 5,
+    .openAcc "a1" true, .bind "a1" bep, .listen "a1" 5,
+    .connect "s1" aep 1, .connect "s2" aep 2, .natRewrite 1 "99.0.0.9", .connect "s4" bep 4,
+    .deliverSyn 1 "a0", .accept "a0" (.into 10 "s0" true), .accept "a0" (.fresh 11 "s9"), .deliverSyn 0 "a0",
+    .deliverSynAck 1 "s2", .cancel "s1", .deliverSynAck 1 "s1",
+    .deliverSyn 0 "a1", .cancel "s4", .close "s4", .deliverErr 0 "a1",
+    .openAcc "a1" true, .bind "a1" bep, .listen "a1" 5, .accept "a1" (.fresh 12 "s8"),
+    .openSock "s5" true, .bind "s5" { addr := "10.0.1.1", port := 7000 },
+    .connect "s5" bep 5, .deliverSyn 1 "a1", .close "s5",
+    .tick 7, .closeAcceptor "a0", .connect "s3" aep 6, .close "s9" ]
 
-def fin : HS := HS.run "a0" {} init hist
+def fin : HS := HS.run {} init hist
 
 end HEx
 
-example : HEx.aep ≠ {} := by decide
-example : HS.okRun "a0" {} HEx.init HEx.hist := HS.okRun_of_okRunB _ _ (by decide)
+set_option maxRecDepth 100000
 
-/-- arrival order: channel 1 (s2) before channel 0 (s1); the first accept call (serial 0, into
-    `s0`, with endpoint) got channel 1 and reports s2's endpoint as seen through the NAT; the
-    second (serial 1, a new socket) got channel 0 -/
-example : HEx.fin.synLog = [1, 0] := by decide
-example : HEx.fin.accLog.map (fun e => (e.serial, e.compl.h, e.compl.extra, e.cid, e.fwd))
-    = [(0, 10, "ep=99.0.0.9:2002", some 1, some 4), (1, 11, "", some 0, some 5)] := by decide
-example : HEx.fin.conLog.map (fun e => (e.sock, e.h, e.cid)) = [("s2", 2, some 1), ("s1", 1, some 0)] := by decide
+theorem HEx.hist_ok : HS.okRun {} HEx.init HEx.hist := HS.okRun_of_okRunB _ _ (by decide)
+
+/-- arrivals per epoch: in epoch 1 (of `a0`) channel 1 (s2) before channel 0 (s1); channel 2 in
+    epoch 2 of `a1`, channel 3 in epoch 8 of `a1` (after the re-open) -/
+example : HEx.fin.synLog = [(1, 1), (1, 0), (2, 2), (8, 3)] := by decide
+
+/-- the first accept call on `a0` (serial 0, into `s0`, with endpoint) got channel 1 and reports
+    s2's endpoint as seen through the NAT; the second (serial 1, a new socket) got channel 0 —
+    the channel of the connect that s1 cancelled —; the accept on `a1` after the re-open (epoch 8)
+    got channel 3, NOT channel 2 which was queued in epoch 2 -/
+example : HEx.fin.accLog.map (fun e => (e.acc, e.epoch, e.serial, e.compl.h, e.compl.extra))
+    = [("a0", 1, 0, 10, "ep=99.0.0.9:2002"), ("a0", 1, 1, 11, ""), ("a1", 8, 0, 12, "")]
+    ∧ HEx.fin.accLog.map (fun e => (e.lep.toString, e.cid, e.fwd))
+    = [("10.0.0.1:8000", some 1, some 6), ("10.0.0.1:8000", some 0, some 7), ("10.0.0.2:9000", some 3, some 10)] := by
+  decide
+
+/-- one success (s2); the cancelled connect of s1, the cancelled-then-closed one of s4 and the
+    closed one of s5 completed with operation_aborted, each exactly once -/
+example : HEx.fin.conLog.map (fun e => (e.sock, e.h, e.ec, e.cid))
+    = [("s2", 2, .ok, some 1), ("s1", 1, .aborted, some 0), ("s4", 4, .aborted, some 2), ("s5", 5, .aborted, some 3)] := by
+  decide
+
 example : HEx.fin.dialLog.map (fun e => (e.cid, e.sock, e.ep0.toString, e.fwd))
-    = [(0, "s1", "10.0.1.1:2001", some 2), (1, "s2", "10.0.1.1:2002", some 3)] := by decide
-example : HEx.fin.net.chans.map (fun c => (c.hops0, c.hops1, c.vis0.toString, c.vis1.toString))
-    = [(["qo", "net", "qi", "@2"], ["nat", "qo", "net", "qi", "@5"], "10.0.1.1:2001", "10.0.0.1:8000"),
-       (["qo", "net", "qi", "@3"], ["nat", "qo", "net", "qi", "@4"], "99.0.0.9:2002", "10.0.0.1:8000")] := by decide
+    = [(0, "s1", "10.0.1.1:2001", some 3), (1, "s2", "10.0.1.1:2002", some 4),
+       (2, "s4", "10.0.1.1:2003", some 5), (3, "s5", "10.0.1.1:7000", some 9)]
+    ∧ HEx.fin.dialLog.map (fun e => (e.target.toString, e.lsock, e.epoch))
+    = [("10.0.0.1:8000", "a0", 1), ("10.0.0.1:8000", "a0", 1), ("10.0.0.2:9000", "a1", 2), ("10.0.0.2:9000", "a1", 8)] := by
+  decide
 
-example := C07_pairing_fifo HEx.cfg "a0" "n0" HEx.aep HEx.clients {} (by decide) HEx.hist (HS.okRun_of_okRunB _ _ (by decide))
-example := C07_views HEx.cfg "a0" "n0" HEx.aep HEx.clients {} (by decide) HEx.hist (HS.okRun_of_okRunB _ _ (by decide))
-example := C07_no_crosstalk HEx.cfg "a0" "n0" HEx.aep HEx.clients {} (by decide) HEx.hist (HS.okRun_of_okRunB _ _ (by decide))
-example := C07_connect_matched HEx.cfg "a0" "n0" HEx.aep HEx.clients {} (by decide) HEx.hist (HS.okRun_of_okRunB _ _ (by decide))
+/-- channel 2 was never handed out: its route towards side 1 still ends in forwarder 2, the
+    forwarder of `a1`'s FIRST epoch, detached for good -/
+example : HEx.fin.net.chans.map (fun c => (c.hops0, c.hops1, c.vis0.toString, c.vis1.toString))
+    = [(["qo", "net", "qi", "@3"], ["nat", "qo", "net", "qi", "@7"], "10.0.1.1:2001", "10.0.0.1:8000"),
+       (["qo", "net", "qi", "@4"], ["nat", "qo", "net", "qi", "@6"], "99.0.0.9:2002", "10.0.0.1:8000"),
+       (["qo", "net", "qi", "@5"], ["nat", "qo", "net", "qi", "@2"], "10.0.1.1:2003", "10.0.0.2:9000"),
+       (["qo", "net", "qi", "@9"], ["nat", "qo", "net", "qi", "@10"], "10.0.1.1:7000", "10.0.0.2:9000")]
+    ∧ HEx.fin.net.fwdTarget 2 = none ∧ (HEx.fin.net.tcp? "a1").bind (·.fwd) = some 8 := by decide
+
+example : (HEx.fin.accCalls "a0", HEx.fin.accCalls "a1") = (2, 1) := by decide
+
+example := C07_pairing_fifo HEx.cfg HEx.accs HEx.clients {} HEx.hist HEx.hist_ok
+example := C07_one_to_one HEx.cfg HEx.accs HEx.clients {} HEx.hist HEx.hist_ok
+example := C07_views HEx.cfg HEx.accs HEx.clients {} HEx.hist HEx.hist_ok
+example := C07_no_crosstalk HEx.cfg HEx.accs HEx.clients {} HEx.hist HEx.hist_ok
+example := C07_connect_matched HEx.cfg HEx.accs HEx.clients {} HEx.hist HEx.hist_ok
+example := C07_syn_routing HEx.cfg HEx.accs HEx.clients {} HEx.hist HEx.hist_ok
 
 /-- the connect before `listen` and the one after `close` were refused: no channel, no SYN -/
-example : HEx.fin.dialLog.length = 2 ∧ HEx.fin.net.chans.length = 2
+example : HEx.fin.dialLog.length = 4 ∧ HEx.fin.net.chans.length = 4
     ∧ ((HEx.fin.net.tcp? "s3").map (fun s => (s.chan, s.connectH))) = some (none, none) := by decide
+
+/-- the re-open of `a1` while channel 2 was queued (`C07_reopen_fresh_epoch` applies to that
+    prefix of the history): the acceptor comes out with an empty queue in a fresh epoch -/
+example : (HS.run {} HEx.init (HEx.hist.take 22)).ok (.openAcc "a1" true)
+    ∧ (((HS.run {} HEx.init (HEx.hist.take 22)).net.tcp? "a1").bind (·.acc)).map (·.conns) = some [2]
+    ∧ (((HS.run {} HEx.init (HEx.hist.take 23)).net.tcp? "a1").bind (·.acc)).map (·.conns) = some []
+    ∧ (HS.run {} HEx.init (HEx.hist.take 22)).net.fwds.length = 8 :=
+  ⟨HS.ok_of_okB (by decide), by decide, by decide, by decide⟩
 
 /-- without the side condition `HS.ok` the statements fail: a SYN-ACK handed to the wrong
     socket completes THAT socket's connect (the network never does this: `routedTo`) -/
-example : ((HS.run "a0" {} HEx.init
-      [.listen 5, .connect "s1" HEx.aep 1, .connect "s2" HEx.aep 2, .deliverSyn 0, .accept (.into 10 "s0" false),
+example : ((HS.run {} HEx.init
+      [.openAcc "a0" true, .bind "a0" HEx.aep, .listen "a0" 5, .connect "s1" HEx.aep 1, .connect "s2" HEx.aep 2,
+       .deliverSyn 0 "a0", .accept "a0" (.into 10 "s0" false),
        .deliverSynAck 1 "s2"]).conLog.map (fun e => (e.sock, e.cid))) = [("s2", some 1)]
-    ∧ (HS.run "a0" {} HEx.init
-      [.listen 5, .connect "s1" HEx.aep 1, .connect "s2" HEx.aep 2, .deliverSyn 0, .accept (.into 10 "s0" false),
+    ∧ (HS.run {} HEx.init
+      [.openAcc "a0" true, .bind "a0" HEx.aep, .listen "a0" 5, .connect "s1" HEx.aep 1, .connect "s2" HEx.aep 2,
+       .deliverSyn 0 "a0", .accept "a0" (.into 10 "s0" false),
        .deliverSynAck 1 "s2"]).accLog.map (·.cid) = [some 0] := by decide
 
 end SimVerif
